@@ -49,8 +49,8 @@ Classes4 == {T, R, U, P}
 Inf == 1000
 NoLim == [k \in Classes |-> None]
 RBase == [maxAtt |-> 2, lim |-> NoLim, maxUnk |-> None, D |-> Inf, hasDefault |-> TRUE,
-          strat |-> {}, legacy |-> {}, budget |-> None, handler |-> FALSE, abort |-> FALSE,
-          rc |-> TRUE, bsleep |-> FALSE, opname |-> TRUE]
+          strat |-> {}, legacy |-> {}, budget |-> None, bW |-> 100000, handler |-> FALSE,
+          abort |-> FALSE, rc |-> TRUE, bsleep |-> FALSE, opname |-> TRUE]
 NoThr == [k \in Classes |-> 0]
 BCfg(thr, w, r) == [thr |-> thr, W |-> w, R |-> r, trip |-> {T}, cthr |-> NoThr]
 
